@@ -1,21 +1,27 @@
 import Knut.Driver.C11
+import Knut.Driver.C15
 import Knut.Driver.C07
 import Knut.Driver.C08
 import Knut.Driver.Dec
 import Knut.Driver.C19
+import Knut.Driver.C18
 import Knut.Driver.C12
 import Knut.Driver.C10
 import Knut.Driver.C04
 import Knut.Driver.Balance
 import Knut.Driver.C17
+import Knut.Driver.C16
 /-! Line-protocol driver over the executable model: one request per line (`op field*`), one answer line.
 Each property contributes a handler module `Knut/Driver/<X>.lean`; add it to `handlers`. -/
 open Knut Knut.Wire
 
 def handlers : List (List String → Option String) := [
   Knut.Driver.C19.handle,
+  Knut.Driver.C18.handle,
   Knut.Driver.C17.handle,
+  Knut.Driver.C16.handle,
   Knut.Driver.C11.handle,
+  Knut.Driver.C15.handle,
   Knut.Driver.C07.handle,
   Knut.Driver.C08.handle,
   Knut.Driver.C12.handle,
